@@ -1,7 +1,6 @@
 SPECIFICATION MCSpec
 CONSTANT L = 5
-CONSTANT Kind = "LO"
-CONSTANT LOBound = "repaired"
+CONSTANT Mode = "quoted"
 VIEW View
 INVARIANT Ok
 INVARIANT Inv
